@@ -72,6 +72,11 @@ class AutoOptimizer(PathOptimizer):
             self._optimizer_hyper_cls = HyperOptimizer
 
     def _get_optimizer_hyper_threadsafe(self):
+        if self._optimizer_hyper_cls is HyperOptimizer:
+            # a bare HyperOptimizer keeps its trials and best tree between
+            # searches, so it can only ever serve a single contraction
+            return HyperOptimizer(minimize=self.minimize, **self.kwargs)
+
         # since the hyperoptimizer is stateful while running,
         # we need to instantiate a separate one for each thread
         tid = threading.get_ident()
